@@ -193,7 +193,8 @@ func (b *TemplateBuilder) buildTranslate() {
 		}
 		strTrace := fmt.Sprintf("%s -> %s",
 			leftPartString, rightPartString)
-		caseCode += fmt.Sprintf("\n\t\tfmt.Printf(\"look ahead %%s, \"+%q+\", go to state %%d\\n\", look, s)\n", strTrace)
+		// the rule text is an argument, not part of the format: a '%' literal must print as itself
+		caseCode += fmt.Sprintf("\n\t\tfmt.Printf(\"look ahead %%s, %%s, go to state %%d\\n\", look, %q, s)\n", strTrace)
 	}
 	b.ReduceTrace = caseCode
 }
